@@ -293,7 +293,7 @@ def src_with(node, mapping):
         return None
     if not mapping:
         return src(node)
-    return src(_clone(node, mapping))
+    return src(ast.fix_missing_locations(_clone(node, mapping)))
 
 
 def single_def(fn, name):
